@@ -99,6 +99,7 @@ func (h *harnessDb) readsX() string {
 		}
 		if c15PagedOn {
 			h.c15PagedReads(tx, &sb) // QP tokens (c15_paging.go)
+			h.c15CursorReads(tx, &sb) // QC tokens: QueryWithCursorC with every cursor provider (store_c15w7.go)
 			if c15LookupsOn {
 				h.c15LookupReads(tx, &sb) // LK / LKD / RE tokens: every lookup variant of the store API (store_c15w6.go)
 			}
@@ -426,6 +427,13 @@ func (g *xGen) genOpX(txSys bool) hOp {
 	// C15: DeleteWhere through the parent, plain child and extended child stores (store_c15w3.go; draws nothing for C16)
 	if g.prof == "c15" && len(alive) > 0 && g.r.chance(c15PDeleteWhere) {
 		if op, ok := g.c15GenDW(st, alive); ok {
+			return op
+		}
+	}
+	// C15: link operations on the link collections the family's PARENT store declares, aimed at entities with child data
+	// (store_c15w7.go; draws nothing for C16 and for wirings without such a collection)
+	if g.prof == "c15" && c15LinkRoot(g.w) != nil && len(alive) > 0 && g.r.chance(c15PLink) {
+		if op, ok := g.c15GenLink(); ok {
 			return op
 		}
 	}
